@@ -57,10 +57,45 @@ func cellValue(a *ssa.Alloc) ssa.Value {
 			}
 		}
 	}
-	if n == 1 {
+	if n == 1 && !addrEscapes(a, 0) {
 		return val
 	}
 	return nil
+}
+
+// addrEscapes: the address (of a cell or of a part of it) is used for anything
+// but loads, stores to it, captures (judged by the caller) and taking the
+// address of a part: handed to a call (rows.Scan(&x), a pointer-receiver
+// method), converted to an interface, stored, returned, merged.  Such a cell
+// can be written behind the analysis' back.
+func addrEscapes(addr ssa.Value, d int) bool {
+	refs := addr.Referrers()
+	if refs == nil {
+		return false
+	}
+	for _, ref := range *refs {
+		switch x := ref.(type) {
+		case *ssa.Store:
+			if x.Val == addr {
+				return true // the address itself is stored somewhere
+			}
+			if d > 0 {
+				return true // a part of the cell is written separately
+			}
+		case *ssa.UnOp, *ssa.DebugRef, *ssa.MakeClosure:
+		case *ssa.FieldAddr:
+			if d > 3 || addrEscapes(x, d+1) {
+				return true
+			}
+		case *ssa.IndexAddr:
+			if d > 3 || addrEscapes(x, d+1) {
+				return true
+			}
+		default:
+			return true
+		}
+	}
+	return false
 }
 
 func (c *symCtx) s(v ssa.Value, d int) string {
